@@ -219,11 +219,15 @@ def run(ck):
                          "invariant (exact cross tensor of the chain, enclosing the implementation's value, is asymmetric)", m, key=K_AXIAL)
     ck.extra["exact_cross_tensor_cases"] = len(ccodes)
     # ---------------- vacancy-mediated tensors -----------------------------------------------------------
-    names = ["rect", "oblique1", "square", "mono", "honeycomb", "ortho", "sq2w", "tria", "sc", "b2"] + ([] if ck.quick else ["tric", "hcp", "fcc", "bcc", "re3", "tet", "hcp-nonideal"])
+    names = ["rect", "oblique1", "square", "mono", "honeycomb", "ortho", "sq2w", "tria", "chiral:p4", "sc", "b2"] + ([] if ck.quick else ["tric", "chiral:p3", "chiral:P4/m", "chiral:p6", "chiral:P-3", "hcp", "fcc", "bcc", "re3", "tet", "hcp-nonideal"])
     nvm = 0
-    for rep in range(ck.n(7, 18)):
+    for rep in range(ck.n(9, 24)):
         nm = names[rep % len(names)] if rep < len(names) else rng.choice(names)
-        crys, chem = gen.named(nm)
+        if nm.startswith("chiral:"):
+            from . import starcase
+            crys, chem = starcase.chiral_crystal(nm[7:])[:2]
+        else:
+            crys, chem = gen.named(nm)
         net = gen.percolating_network(crys, chem, rng, maxshell=1, maxjumps=30)
         if net is None: continue
         cut, sl, jn = net
